@@ -57,7 +57,7 @@ def gen_case(rnd):
         south = rnd.random() < 0.5
         r = rnd.random()
         if r < 0.15:
-            alat = rnd.choice([rnd.uniform(70, 79.9), rnd.uniform(0.001, 1.0)])
+            alat = rnd.choice([rnd.uniform(70, 79.9), rnd.uniform(0.001, 1.0), rnd.uniform(0.0006, 0.02), rnd.uniform(0.0006, 0.2)])
         else:
             alat = rnd.uniform(0.0005, 79.9)
         if not south and rnd.random() < 0.2:
